@@ -1611,7 +1611,11 @@ def rule_migmisc(text):
         cl = match_close(m, op)
         t = re.match(r"\s*\.\s*map_err\s*\(", m[cl + 1:])
         if not t:
-            break
+            # a bare `fs::rename(A, B)` whose result is discarded or matched by the caller
+            new_ = "fs_rename_raw(" + text[op + 1:cl] + ")"
+            apps.append(_app("R-fs", text, mm.start(), cl + 1, new_, "shim: fs::rename (io::Result); it silently replaces an existing destination, and between two hard links of one file it does nothing"))
+            text = text[:mm.start()] + new_ + text[cl + 1:]
+            continue
         op2 = cl + 1 + t.end() - 1
         cl2 = match_close(m, op2)
         new_ = "fs_rename(" + text[op + 1:cl] + ")"
